@@ -7,6 +7,7 @@ import (
 	"encoding/binary"
 	"fmt"
 	"io"
+	"math"
 	"mime"
 	"net/http"
 	"net/http/httptest"
@@ -308,6 +309,34 @@ func runC11(o *hx.Out, r *hx.Rand, thorough bool) {
 					o.Case("stream_body_"+kind, fmt.Sprintf("SBody %s %d %d %d %s", hx.B(tl.ok), want, seen, rec.Code, hx.Z(tc)), d)
 				}
 			}
+		}
+	}
+	// a declared Content-Length far beyond the body that follows (the peer controls that number): no panic, no
+	// handler call, an error status
+	for _, cl := range []int64{1 << 62, math.MaxInt64} {
+		for _, ct := range []string{httpgrpc.UnaryRpcContentType_V1, httpgrpc.ApplicationJson} {
+			req := httptest.NewRequest("POST", "/verif.Svc/U", bytes.NewReader(pb))
+			req.Header.Set("Content-Type", ct)
+			req.ContentLength = cl
+			rec := httptest.NewRecorder()
+			calls, hcode = 0, 0
+			o.Begin(map[string]interface{}{"content_type": ct, "declared_content_length": cl, "body_bytes": len(pb)})
+			panicked := ""
+			func() {
+				defer func() {
+					if p := recover(); p != nil {
+						panicked = fmt.Sprint(p)
+					}
+				}()
+				hu(rec, req)
+			}()
+			// (handed over by httptest the body simply ends after its five bytes, which decode: the handler may run)
+			ok := panicked == "" && ((calls == 1 && rec.Code == 200) || (calls == 0 && rec.Code >= 400))
+			d := map[string]interface{}{"content_type": ct, "declared_content_length": cl, "body_bytes": len(pb), "status": rec.Code, "user_calls": calls, "panic": panicked}
+			if !ok {
+				o.Violate("a request whose declared length exceeds its body made the server panic (or answered inconsistently)", d, panicked, nil)
+			}
+			o.Case("declared_length_beyond_body", fmt.Sprintf("GoSide %s %s", hx.Str("declared length beyond body"), hx.B(ok)), d)
 		}
 	}
 	// a server with a base path: names outside it are unknown, whatever else they look like
